@@ -35,6 +35,25 @@ def closure(ctx, work):
                               {'config': cfg, 'symbol': s})
             ctx.event('undefined-symbol-table', '%s/%s' % (cfg, s))
         ctx.extra.setdefault('external_symbols', {})[cfg] = ext
+        # (i') a system call needs no symbol: look for the instructions themselves in the disassembly of every object (a path the
+        # strace workload does not drive would otherwise go unseen)
+        dis = sh(['objdump', '-d', '--no-show-raw-insn'] + objs).stdout
+        nins = 0
+        cur = '?'
+        for l in dis.split('\n'):
+            m = re.match(r'^[0-9a-f]+ <(.+)>:$', l)
+            if m:
+                cur = m.group(1)
+                continue
+            parts = l.split('\t')
+            if len(parts) >= 2:
+                nins += 1
+                ins = parts[-1].strip().split(' ')[0]
+                if ins in ('syscall', 'sysenter', 'int') and (ins != 'int' or '$0x80' in parts[-1]):
+                    ctx.violation('closure:syscall-instruction:%s' % cur[:60], 'library object code (%s build) contains a %s instruction in %s' % (cfg, ins, cur), {'config': cfg, 'function': cur})
+        if nins < 1000:
+            raise harness.HarnessError('disassembly of the %s objects yielded only %d instructions' % (cfg, nins))
+        ctx.event('no-syscall-instruction', cfg, n=nins)
         # (ii) executed: freestanding static link with a 40-line runtime
         rt = os.path.join(work, 'rt_%s.o' % cfg)
         sm = os.path.join(work, 'smoke_%s.o' % cfg)
@@ -88,9 +107,18 @@ def syscalls(ctx, work, exe):
 def snapshot(ctx, work, cfgname, exe, objs):
     # writable symbols of the library objects (any binding), resolved in the non-PIE executable
     names = set()
+    # thread-local objects are mutable state kept between calls as well (per thread): the library may not define any.  They are
+    # reported by name and kept out of the address table (their "addresses" are offsets into the TLS block)
+    tls = set()
+    for l in sh(['readelf', '-sW'] + objs).stdout.split('\n'):
+        p = l.split()
+        if len(p) >= 8 and p[3] == 'TLS' and p[6] != 'UND':
+            tls.add(p[7])
+    for n in sorted(tls):
+        ctx.violation('mutable-state:thread-local:%s' % n[:80], 'library objects (%s build) define the thread-local object %s: state that survives between calls' % (cfgname, n), {'config': cfgname, 'symbol': n})
     for l in sh(['nm', '-S'] + objs).stdout.split('\n'):
         p = l.split()
-        if len(p) == 4 and p[2] in 'DdBb':
+        if len(p) == 4 and p[2] in 'DdBb' and p[3] not in tls:
             names.add(p[3])
     table = []
     for l in sh(['nm', '-S', exe]).stdout.split('\n'):
@@ -105,6 +133,8 @@ def snapshot(ctx, work, cfgname, exe, objs):
             fh.write('%s %d %s\n' % (a, s, n))
     r = sh([exe, '--snapshot', f, str(2 if ctx.quick else 20), str(ctx.seed)], timeout=1800)
     if r.returncode != 0:
+        if tls:
+            return          # already reported; the table of a build with TLS objects is not trustworthy
         raise harness.HarnessError('snapshot run failed: %s' % r.stdout[-500:])
     input_changes(ctx, r.stdout, cfgname, 'snapshot run')
     for l in r.stdout.split('\n'):
